@@ -288,10 +288,29 @@ type MLNums struct {
 	Rest []string  `@Ident*`
 }
 
+// a stateful lexer whose Pop rule is reachable in the initial state (unbalanced closers are a lexing error)
+var braceLexer = lexer.MustStateful(lexer.Rules{
+	"Root": {lexer.Include("Body")},
+	"Body": {
+		{Name: "Open", Pattern: `\{`, Action: lexer.Push("Body")},
+		{Name: "Close", Pattern: `\}`, Action: lexer.Pop()},
+		{Name: "Ident", Pattern: `[a-z]+`},
+		{Name: "ws", Pattern: `[ \n]+`},
+	},
+})
+
+type BraceDoc struct {
+	Items []*BraceItem `@@*`
+}
+type BraceItem struct {
+	Name  string       `  @Ident`
+	Block []*BraceItem `| Open @@* Close`
+}
+
 func runMultiline(w *hx.Worker, quick bool) {
 	pd := participle.MustBuild[MLDoc](participle.Lexer(mlLexer), participle.UseLookahead(2))
 	pn := participle.MustBuild[MLNums](participle.Lexer(mlLexer))
-	alpha := [][]byte{[]byte("a"), []byte("1"), []byte(" "), []byte("\n"), []byte("\""), []byte("é"), []byte("\xff"), []byte(";"), []byte(","), []byte("="), []byte("/*"), []byte("*/"), []byte("9999")}
+	alpha := [][]byte{[]byte("{"), []byte("}"), []byte("a"), []byte("1"), []byte(" "), []byte("\n"), []byte("\""), []byte("é"), []byte("\xff"), []byte(";"), []byte(","), []byte("="), []byte("/*"), []byte("*/"), []byte("9999")}
 	seedsD := []string{"a = \"x\né\" ; b = 1,2,300 ; c = d é ;", "k=/* é\né */ \"s\";\nz = 255 , 256;", "a = \"é\né\nééé\" x"}
 	seedsN := []string{"1, 2, 3, 127 a b", "1e, 4, 128", "99999999999999999999999999999999999999999, 1 x", "3, 300 é"}
 	drive := func(name string, check func(in []byte, fn string) verifOutcome, seeds []string) {
@@ -316,6 +335,8 @@ func runMultiline(w *hx.Worker, quick bool) {
 			}
 		}
 	}
+	pb := participle.MustBuild[BraceDoc](participle.Lexer(braceLexer))
+	drive("braces", func(in []byte, fn string) verifOutcome { return verifCheck(pb, fn, in, 0) }, []string{"a { b } } c", "{ a { b { c } } }", "}", "a { b"})
 	drive("doc", func(in []byte, fn string) verifOutcome { return verifCheck(pd, fn, in, 0) }, seedsD)
 	drive("nums", func(in []byte, fn string) verifOutcome { return verifCheck(pn, fn, in, 1) }, seedsN)
 }
